@@ -638,6 +638,14 @@ def _calls(method):
         for k in (0, 1, -1):
             yield "npts%+d weights" % k, (lambda c, k=k: setattr(c, "weights", [F(2)] * (c.npts + k))), (lambda b, c: len(c.weights) == c.npts)
         yield "None", (lambda c: setattr(c, "weights", None)), (lambda b, c: c.weights is None)
+    elif method == "eval":
+        def chk(c, arg, want_len):
+            r = c(arg)
+            ok = (isinstance(r, tuple) and len(r) == want_len) if want_len is not None else not isinstance(r, (tuple, list))
+            if not ok:
+                raise AssertionError("curve(%r) returned %r" % (arg, r))
+        for arg, n in (([F(1)], 1), (F(1), None), ([F(0), F(3)], 2), ([], 0), ([F(3), F(1), F(0)], 3)):
+            yield repr(arg), (lambda c, arg=arg, n=n: chk(c, arg, n)), (lambda b, c: True)
     elif method in ("knot_clean", "degree_clean", "clean"):
         for tol in (1e-9, 0, 10, -1):
             yield repr(tol), (lambda c, tol=tol: getattr(c, method)(tol)), (lambda b, c: c.npts + c.degree <= b[0] + b[1])
@@ -713,6 +721,8 @@ def _attach(c, method, P, W):
 
 
 import re as _re
+for _c in (EVAL_SCALAR, EVAL_SEQ):
+    _c.concrete = concrete_search("eval", 1, 0, {"ValueError"})
 for _c, _m, _q, _v in ALL:
     mm = _re.search(r"P=(\d),W=(\d)", _c.name)
     if mm and "eval" not in _c.name:
@@ -929,7 +939,7 @@ def knot_clean_contract(P, W):
         params={"self": "obj:BaseCurve", "tolerance": "real", "nodes": "none"}, spec=CSPEC, calls=CLEAN_CALLS,
         loops={0: dict(invariant=["0 <= it0 and it0 <= len_it0"] + CLEAN_INV, decreases="len_it0 - it0"),
                1: dict(invariant=CLEAN_INV, decreases="npts(self) + deg(self)")},          # each successful removal lowers npts + degree: the inner loop terminates
-        ensures=["INV(self)", "npts(self) + deg(self) <= old(npts(self)) + old(deg(self))"],
+        ensures=["INV(self)", "npts(self) + deg(self) <= old(npts(self)) + old(deg(self))", "tolerance >= 0"],
         raises={"AssertionError": "tolerance < 0"}, exc_ensures=ATOMIC, canary="npts(self) + deg(self) > old(npts(self)) + old(deg(self))")
 
 
@@ -938,7 +948,7 @@ def degree_clean_contract(P, W):
         "curves.Curve.degree_clean[P=%d,W=%d]" % (P, W), setup=curve_state(P, W),
         params={"self": "obj:BaseCurve", "tolerance": "real"}, spec=CSPEC, calls=CLEAN_CALLS,
         loops={0: dict(invariant=[x if "npts(self) + deg(self) <=" not in x else "deg(self) <= old(deg(self))" for x in CLEAN_INV], decreases="deg(self)")},         # each successful reduction lowers the degree, which stays >= 0
-        ensures=["INV(self)", "deg(self) <= old(deg(self))"],
+        ensures=["INV(self)", "deg(self) <= old(deg(self))", "tolerance >= 0"],
         raises={"AssertionError": "tolerance < 0"}, exc_ensures=ATOMIC, canary="deg(self) > old(deg(self))")
 
 
@@ -957,6 +967,7 @@ def h_clean_call(name):
         c = args[0]
         tol = kw.get("tolerance", args[1] if len(args) > 1 else None)
         if tol is not None:
+            # proved: AssertionError only when tolerance < 0, and a normal return implies tolerance >= 0: raised exactly when tolerance < 0
             eng.raise_exc(st, "AssertionError", tol.real() < 0, node.lineno, exits)
         old = c.fields[KVF]
         d, n = fresh_int("deg_after_" + name), fresh_int("npts_after_" + name)
@@ -988,3 +999,58 @@ for _c, _m, _q, _v in _new:
     mm = _re.search(r"P=(\d),W=(\d)", _c.name)
     _attach(_c, "clean", int(mm.group(1)), int(mm.group(2)))
 ALL += _new
+
+
+# ---- fit_points: shape, atomicity -------------------------------------------------------------------------------------------------
+def h_lstsq_fit_function(eng, st, args, kw, node, exits):
+    """heavy.LeastSquare.fit_function(knotvector, nodes, weights) by its shape contract (values: C12): a matrix with npts rows and len(nodes) columns;
+    AssertionError / ValueError / ZeroDivisionError possible (fewer nodes than npts, singular normal matrix)."""
+    vec, nodes = args[0], args[1]
+    kv = kv_of_vector(vec)
+    for cls in ("AssertionError", "ValueError", "ZeroDivisionError"):
+        eng.raise_exc(st, cls, E.fresh("fit_matrix_refused", z3.BoolSort()), node.lineno, exits)
+    r, c = fresh_int("L_rows"), fresh_int("L_cols")
+    st.assume(z3.And(r == kv.fields["npts"].z, c == nodes.n))
+    return E.Mat(z3.Array("L!%d" % next(E._fresh), z3.IntSort(), z3.ArraySort(z3.IntSort(), z3.RealSort())), r, c)
+
+
+def h_closed_linspace(eng, st, args, kw, node, exits):
+    """NodeSample.closed_linspace(n, cls) by the contract proved in misc.CLOSED_LINSPACE: n values."""
+    n = args[0]
+    s = E.fresh_seq("linspace")
+    st.assume(s.n == n.z)
+    return s
+
+
+FIT_CALLS = dict(MUT_CALLS)
+FIT_CALLS.update({"call:heavy.LeastSquare.fit_function": CallSpec(h_lstsq_fit_function), "call:heavy.NodeSample.closed_linspace": CallSpec(h_closed_linspace),
+                  "call:np.dot": CallSpec(h_np_dot), "func:tuple": CallSpec(h_tuple_any)})
+
+
+def fit_points_contract(P, W, given):
+    return Contract(
+        "curves.Curve.fit_points[P=%d,W=%d,nodes=%s]" % (P, W, "given" if given else "None"), setup=curve_state(P, W),
+        params={"self": "obj:BaseCurve", "points": "seq", "nodes": "seq" if given else "none"}, spec=CSPEC, calls=FIT_CALLS,
+        consts={"Fraction": E.Const(("builtin", "Fraction")), "heavy": E.Const(("module", "heavy"))},
+        ensures=["INV(self)", "not is_none(P(self))", "len(P(self)) == npts(self)", "same(KV(self), old(KV(self)))", "same_seq(W(self), old(W(self)))",
+                 "len(points) >= npts(self)"],
+        raises={"AssertionError": None, "ValueError": None, "ZeroDivisionError": None}, exc_ensures=ATOMIC,
+        covers=["len(points) == npts(self) + 2"], canary="len(P(self)) == npts(self) + 1")
+
+
+_new = [(fit_points_contract(P, W, g), "curves", "Curve.fit_points", None) for P in (0, 1) for W in (0, 1) for g in (0, 1)]
+for _c, _m, _q, _v in _new:
+    _c.tag = _c.name[_c.name.index("["):]
+ALL += _new
+
+
+def h_fit_points_call(eng, st, args, kw, node, exits):
+    """self.fit_points(values, nodes) by the contract proved above: AssertionError / ValueError / ZeroDivisionError with the curve unchanged, or npts control
+    points on the same knot vector, weights untouched."""
+    c = args[0]
+    for cls in ("AssertionError", "ValueError", "ZeroDivisionError"):
+        eng.raise_exc(st, cls, E.fresh("fit_refused", z3.BoolSort()), node.lineno, exits)
+    s = E.fresh_seq("fitted_points")
+    st.assume(s.n == c.fields[KVF].fields["npts"].z)
+    c.fields[PF] = s
+    return NoneV()
